@@ -83,6 +83,14 @@ func (t *brokerPublishTransactionBase) ProceedMQTT(newState transactionState, mq
 	return nil
 }
 
+// Retransmissions to a sleeping client make no sense: the packet waits in the
+// handler's buffer until the client wakes up. The retries must not be counted
+// meanwhile, otherwise the transaction gives up before the client can answer.
+func (t *brokerPublishTransactionBase) clientAsleep(pktx interface{}) bool {
+	_, toClient := pktx.(snPkts.Packet)
+	return toClient && t.handler.state.Get() == util.StateAsleep
+}
+
 // Resend MQTT or MQTT-SN packet.
 func (t *brokerPublishTransactionBase) resend(pktx interface{}) error {
 	t.log.Debug("Resend.")
